@@ -112,7 +112,7 @@ fn leak_str(s: String) -> &'static str {
     Box::leak(s.into_boxed_str())
 }
 
-fn parse_opts(s: &str) -> Option<BenchOptions<'static>> {
+pub fn parse_opts(s: &str) -> Option<BenchOptions<'static>> {
     if s == "-" {
         return None;
     }
